@@ -343,9 +343,9 @@ pub fn process(
         Operation::Lpm | Operation::Elpm => {
             if op_args.len() == 0 {
                 opcode = if let Operation::Lpm = op {
-                    0b_0101_1100_1000
+                    0b_1001_0101_1100_1000
                 } else {
-                    0b_0101_1101_1000
+                    0b_1001_0101_1101_1000
                 }
             } else {
                 let r = op_args[0].get_r8(constants)?;
